@@ -243,8 +243,8 @@ structure MdOK (m : Metadata) (D L : List String) : Prop where
   lkeys : ∀ k ∈ Dict.keys m.lossDetails, k ∈ L
 
 structure NamesOK (D L F : List String) : Prop where
-  dsorted : strictKeys D
-  lsorted : strictKeys L
+  dsorted : D.Nodup
+  lsorted : L.Nodup
   lsub : ∀ k ∈ L, k ∈ D
   dcore : ∀ k ∈ D, k ∉ coreNames ∧ k ∉ F
   fcore : ∀ f ∈ F, f ∉ coreNames
@@ -309,6 +309,35 @@ theorem rowDetails_eq {r : Row} {d : Dict MVal} {S : List String} (hS : strictKe
     (by intro k v hv; cases v <;> simp at hv ⊢) S d hS hd hv hk]
   exact sortItems_of_canon hd
 
+theorem sortStrings_strict {S : List String} (hn : S.Nodup) : strictKeys (sortStrings S) := by
+  unfold strictKeys sortStrings
+  have hs := sorted_mergeSort (cmp := (compare : String → String → Ordering)) S
+  have hnd : (S.mergeSort fun a b => compare a b != .gt).Nodup := (List.mergeSort_perm _ _).nodup_iff.mpr hn
+  rw [List.pairwise_iff_getElem] at hs ⊢
+  intro i j hi hj hij
+  have h1 := hs i j hi hj hij
+  have hne : (S.mergeSort fun a b => compare a b != .gt)[i] ≠ (S.mergeSort fun a b => compare a b != .gt)[j] := by
+    intro he
+    have := (List.Nodup.getElem_inj_iff hnd).mp he
+    omega
+  unfold leOf at h1
+  cases hc : compare (S.mergeSort fun a b => compare a b != .gt)[i] (S.mergeSort fun a b => compare a b != .gt)[j] with
+  | lt => rfl
+  | eq => exact absurd (Std.compare_eq_iff_eq.mp hc) hne
+  | gt => rw [hc] at h1; simp at h1
+
+/-- `rowDetails_eq` for a column list that is merely duplicate-free (any order): the reader sorts the
+detail items, so the order of the detail columns handed to it does not matter -/
+theorem rowDetails_eq_nodup {r : Row} {d : Dict MVal} {S : List String} (hS : S.Nodup) (hd : DictCanon d)
+    (hv : ∀ p ∈ d, p.2 ≠ MVal.none) (hk : ∀ k ∈ Dict.keys d, k ∈ S)
+    (hcol : ∀ k ∈ S, Row.col r k = (Dict.get? d k).getD .none) : rowDetails r S = d := by
+  have hperm : (sortStrings S).Perm S := List.mergeSort_perm _ _
+  rw [← rowDetails_eq (S := sortStrings S) (sortStrings_strict hS) hd hv
+    (fun k hk' => hperm.mem_iff.mpr (hk k hk')) (fun k hk' => hcol k (hperm.mem_iff.mp hk'))]
+  unfold rowDetails sortItems
+  exact mergeSort_perm_invariant (cmp := itemCmp) (hperm.symm.filterMap _)
+    (fun a b _ _ hab => itemCmp_eq_eq.mp hab)
+
 /-- a row that carries the flat metadata of `m` in its metadata columns reads back as `m` -/
 theorem rowMetadata_of_cols {r : Row} {m : Metadata} {D L F : List String} (hm : MdOK m D L)
     (hn : NamesOK D L F) (h : ∀ k ∈ sixNames ++ D, Row.col r k = Row.col (flatDict m) k) :
@@ -322,7 +351,7 @@ theorem rowMetadata_of_cols {r : Row} {m : Metadata} {D L F : List String} (hm :
   have e5 := six "loss_definition" (by decide)
   have e6 := six "per_occurrence_limit" (by decide)
   have hdet : rowDetails r (D.filter (!L.contains ·)) = m.details := by
-    apply rowDetails_eq (strictKeys_filter hn.dsorted _) hm.canon.1 hm.dvals
+    apply rowDetails_eq_nodup (hn.dsorted.sublist List.filter_sublist) hm.canon.1 hm.dvals
     · intro k hk
       obtain ⟨h1, h2⟩ := hm.dkeys k hk
       exact List.mem_filter.mpr ⟨h1, by simpa using h2⟩
@@ -333,7 +362,7 @@ theorem rowMetadata_of_cols {r : Row} {m : Metadata} {D L F : List String} (hm :
       unfold Row.col
       rw [col_flat_detail hm hn h1 h2']
   have hloss : rowDetails r L = m.lossDetails := by
-    apply rowDetails_eq hn.lsorted hm.canon.2 hm.lvals hm.lkeys
+    apply rowDetails_eq_nodup hn.lsorted hm.canon.2 hm.lvals hm.lkeys
     intro k hk
     rw [h k (List.mem_append_right _ (hn.lsub k hk))]
     unfold Row.col
